@@ -63,7 +63,7 @@ def _mc(ctx):
                 ('svc', dict(owners=3, hosts=2), True), ('svc', dict(owners=3, hosts=6), False),
                 ('svc', dict(owners=4, hosts=2), False),
                 ('gcrule', dict(owners=3, rules=3), True), ('gcvip', dict(owners=3, hosts=2), True),
-                ('gcspec', dict(owners=3, specs=3), True), ('gcvip', dict(owners=3, hosts=6), False)]
+                ('gcspec', dict(owners=3, specs=3), True), ('gcvip', dict(owners=4, hosts=2), False)]
     need = dict(vip=['VipGC', 'VipFree', 'VipAlloc', 'VipAllocPicked', 'OwnerDisappears'], rule=['RuleGC', 'RuleCreate', 'RuleUnlink'], spec=['SpecGC', 'SpecCreate', 'SpecUnlink', 'SpecUnlinkAll'],
                 svc=['Synchronize', 'SvcStart', 'OnDelete', 'OnCreate', 'Import'], mgr=[],
                 gcrule=['GcBegin', 'GcList', 'GcVisit', 'GcEnd', 'RuleCreate', 'OwnerAppears'],
